@@ -29,6 +29,15 @@ def check(run):
             run.cov['drift'].append(dict(trace=os.path.basename(t), note='the real validator accepts/rejects differently from Config!Validate',
                                          line=vlib.last_l(out)))
             vlib.log('[DRIFT] validator differs from the model Config!Validate in %s' % os.path.basename(t))
+    # growth beyond the listed property (never a verdict): start-up code of internal/backend.go against Backend.tla -
+    # control-algorithm selection for every spelling (incl. the `controlAlgorithm: {}` nil loop) and sensor seeding
+    btr = run.drive('TestDriveBackend', 1, lambda i: dict(VERIF_SEED=run.seed), 'backend')
+    rc, out = run.tlc('Rec_Backend', recfam.rec_cfg('Rec_Backend', ['G11_AlgorithmSelection', 'G11_RateLimit', 'G11_SensorSeed']), 'rec_backend',
+                      workers=1, env=dict(VERIF_TRACE=btr[0]))
+    run.cov['growth_backend'] = dict(records=vlib.count_lines(btr[0]), accepted=vlib.parse_violation(out) is None and 'TRACE-DONE' in out)
+    if not run.cov['growth_backend']['accepted']:
+        run.cov['drift'].append(dict(trace='backend', note='start-up behaviour differs from Backend.tla: %s' % vlib.parse_violation(out)))
+        vlib.log('[DRIFT] start-up (algorithm selection / sensor seeding) differs from Backend.tla: %s' % vlib.parse_violation(out))
     import json
     n = acc = cyc = doc = 0
     for t in traces:
